@@ -1,5 +1,6 @@
 """C01 - exact GP posterior equals the closed-form Gaussian conditional on every path the settings can select.
-Spec: ExactPosterior.tla (settings lattice -> path; exact rational path formulas = conditional)."""
+Spec: ExactPosterior.tla (settings lattice incl. the global switches that select nothing -> path; exact rational path formulas = conditional;
+accuracy knobs; histories of predictions on one model: kernel-object state, call-time keywords, set_train_data - c01_hist.py)."""
 import itertools
 import math
 import os
@@ -9,19 +10,28 @@ from fractions import Fraction
 from harness import core, tlc
 from checks.c04 import tla
 from checks import c01_knobs
+from checks import c01_hist
 
 LEVEL = "model_checking"
 PID = "C01"
 
 
-def write_mc(workdir, name, part, instances=(), maxoff=1):
+def write_mc(workdir, name, part, instances=(), maxoff=1, histlen=2, kw=("none", "forward", "call"), sites=("covar", "noise"), restore=True, slicekeeps=True,
+             setdata=("set-targets", "set-data"),
+             invariants=("LatticeOK", "AlgebraOK", "KnobsOK", "HistoryOK", "KernelRestored")):
     os.makedirs(workdir, exist_ok=True)
     mod = "MC_ExactPosterior_" + name
     with open(os.path.join(workdir, mod + ".tla"), "w") as f:
         f.write("---- MODULE %s ----\nEXTENDS ExactPosterior\nInstDef == {%s}\n====\n" % (mod, ",\n  ".join(tla(i) for i in instances)))
     cfg = os.path.join(workdir, mod + ".cfg")
-    tlc.write_cfg(cfg, spec="Spec", constants={"Part": part, "Instances": "<- InstDef", "MaxOff": maxoff}, invariants=["LatticeOK", "AlgebraOK", "KnobsOK"])
+    tlc.write_cfg(cfg, spec="Spec", constants={"Part": part, "Instances": "<- InstDef", "MaxOff": maxoff, "HistLen": histlen, "HistKw": set(kw), "HistSites": set(sites),
+                                               "RestoreAlways": bool(restore), "SliceKeepsParams": bool(slicekeeps), "SetDataClears": set(setdata)}, invariants=list(invariants))
     return os.path.join(workdir, mod + ".tla"), cfg
+
+
+# deliberately broken variants of the history machine: TLC must reject each (OnePrior is not vacuous)
+BROKEN = {"active_dims-restored-only-under-debug": dict(restore=False), "slicing-drops-call-time-keywords": dict(slicekeeps=False),
+          "targets-only-set_train_data-keeps-the-strategy": dict(setdata=("set-data",))}
 
 
 def gen_instances(rnd, n_lin, n_root):
@@ -57,6 +67,7 @@ def cell_contexts(settings, cell, n_joint):
            settings.fast_pred_var(bool(cell["fpv"])),
            settings.detach_test_caches(bool(cell["detach"])),
            settings.skip_posterior_variances(bool(cell["skipvar"]))]
+    cms += c01_hist.switch_contexts(settings, cell.get("sw", "none"))
     chol, cholroot = bool(cell["chol"]), bool(cell["cholroot"])
     if chol and cholroot:
         pass  # sizes far below max_cholesky_size: Cholesky everywhere
@@ -75,8 +86,11 @@ def tolerance(cell):
     return 2e-5, 2e-7          # exact algorithms run iteratively (CG at 1e-12, Lanczos at full rank)
 
 
+FLAGS = ("lazy", "eager", "chol", "fpv", "cholroot", "detach", "skipvar")
+
+
 def cell_name(cell):
-    return "".join(k[0].upper() if cell[k] else k[0].lower() for k in ("lazy", "eager", "chol", "fpv", "cholroot", "detach", "skipvar"))
+    return "".join(k[0].upper() if cell[k] else k[0].lower() for k in FLAGS) + ("" if cell.get("sw", "none") == "none" else "+" + cell["sw"])
 
 
 def predict(torch, settings, model, lik, xs, cell, n_joint, lik_kwargs=None):
@@ -131,6 +145,8 @@ def _worker(item):
             out.append(run_l1(torch, gpytorch, settings, c))
         elif c["level"] == "L3":
             out.append(c01_knobs.run_l3(torch, gpytorch, settings, c))
+        elif c["level"] == "L4":
+            out.append(c01_hist.run_l4(torch, gpytorch, settings, c))
         else:
             out.append(run_l2(torch, gpytorch, settings, c))
     return out
@@ -147,7 +163,7 @@ def run_l1(torch, gpytorch, settings, c):
     Xs = torch.tensor(inst["Xs"], dtype=D)
     y = torch.tensor(inst["y"], dtype=D)
     desc = "rational instance X=%s Xs=%s y=%s mean=%d noise=%d cell=%s" % (inst["X"], inst["Xs"], inst["y"], inst["mc"], inst["s2"], cell_name(cell))
-    res = dict(key=["L1", inst, cell_name(cell)], ok=True, nontrivial=any(not v for k, v in cell.items() if k in ("lazy", "eager", "chol", "cholroot", "detach")) or cell["fpv"] or cell["skipvar"],
+    res = dict(key=["L1", inst, cell_name(cell)], ok=True, nontrivial=any(not v for k, v in cell.items() if k in ("lazy", "eager", "chol", "cholroot", "detach")) or cell["fpv"] or cell["skipvar"] or cell.get("sw", "none") != "none",
                sample=dict(case=desc), case=c)
     from checks.gpmodels import ExactModel  # noqa
     lik = gpytorch.likelihoods.GaussianLikelihood().to(D)
@@ -178,13 +194,21 @@ def run_l1(torch, gpytorch, settings, c):
         res.update(ok=False, sig=sig + "/raises", detail="%s: %s" % (desc, got))
         return res
     compare(torch, res, desc, cell, got, (wm, wc, wmc), sig)
+    if res["ok"]:
+        # the same question again: the answer does not depend on what was asked before
+        ok, got = core.guarded(lambda: predict(torch, settings, model, lik, Xs, cell, len(inst["X"]) + len(inst["Xs"])))
+        if not ok:
+            res.update(ok=False, sig=sig + "/second-prediction/raises", detail="%s: second prediction: %s" % (desc, got))
+            return res
+        compare(torch, res, desc + " (second prediction at the same inputs)", cell, got, (wm, wc, wmc), sig + "/second-prediction")
     return res
 
 
 def PathSig(cell):
     solve = "chol" if cell["chol"] else "cg"
     cov = "zero" if cell["skipvar"] else ("root-" + ("chol" if cell["cholroot"] else "lanczos") if cell["fpv"] else "direct")
-    return "%s-%s/%s/%s/%s" % ("lazy" if cell["lazy"] else "evaluated", "dense" if cell["eager"] else "lazyslice", solve, cov, "detached" if cell["detach"] else "attached")
+    sw = "" if cell.get("sw", "none") == "none" else "/sw:" + cell["sw"]
+    return "%s-%s/%s/%s/%s%s" % ("lazy" if cell["lazy"] else "evaluated", "dense" if cell["eager"] else "lazyslice", solve, cov, "detached" if cell["detach"] else "attached", sw)
 
 
 def run_l2(torch, gpytorch, settings, c):
@@ -196,6 +220,10 @@ def run_l2(torch, gpytorch, settings, c):
     mb = tuple(shape.get("model_batch", ()))
     tb = tuple(shape.get("test_batch", ()))
     n, d, ns = shape["n"], shape["d"], shape.get("ns", 3)
+    tree = c01_hist.TREES[fam["kernel"][5:]] if fam["kernel"].startswith("tree:") else None
+    kw = bool(tree) and c01_hist.tree_class(tree)[1]        # the model's forward passes a call-time keyword to its kernel
+    if tree:
+        d = c01_hist.D_COLS                                  # kernels with active_dims: always multi-column inputs
     tasks = 2 if fam["lik"] == "mtask" else 0
     X = torch.rand(*mb, n, d, generator=g, dtype=D) * 2 - 1
     Xs = torch.rand(*(tb or mb), ns, d, generator=g, dtype=D) * 2 - 1
@@ -207,6 +235,8 @@ def run_l2(torch, gpytorch, settings, c):
     def kern():
         k = fam["kernel"]
         bs = torch.Size(mb)
+        if tree:
+            return c01_hist.build_kernel(torch, gpytorch, tree, bs)
         if k == "rbf_ard":
             return K.ScaleKernel(K.RBFKernel(ard_num_dims=d, batch_shape=bs), batch_shape=bs)
         if k == "matern":
@@ -227,6 +257,8 @@ def run_l2(torch, gpytorch, settings, c):
         lik = gpytorch.likelihoods.FixedNoiseGaussianLikelihood(noise=noise_tr)
     else:
         lik = gpytorch.likelihoods.MultitaskGaussianLikelihood(num_tasks=2, rank=1)
+    # the keyword widens the effective lengthscale (far from the default "no warp"; a narrowing one would make K nearly diagonal: clustered spectrum)
+    warp = torch.tensor(0.5 + 0.3 * float(torch.rand(1, generator=g)), dtype=D) if kw else None
 
     class M(gpytorch.models.ExactGP):
         def __init__(s_, x, yy, l):
@@ -238,9 +270,11 @@ def run_l2(torch, gpytorch, settings, c):
             else:
                 s_.mean_module = gpytorch.means.ConstantMean(batch_shape=torch.Size(mb))
             s_.covar_module = kern()
+            if kw:
+                s_.register_buffer("warp", warp.clone())
 
         def forward(s_, x):
-            m, k = s_.mean_module(x), s_.covar_module(x)
+            m, k = s_.mean_module(x), (s_.covar_module(x, warp=s_.warp) if kw else s_.covar_module(x))
             return gpytorch.distributions.MultitaskMultivariateNormal(m, k) if tasks else gpytorch.distributions.MultivariateNormal(m, k)
     model = M(X, y, lik).to(D)
     lik = lik.to(D)
@@ -251,52 +285,95 @@ def run_l2(torch, gpytorch, settings, c):
             lik.noise = lik.noise * 0 + 0.15 + 0.1 * float(torch.rand(1, generator=g))
     model.eval()
     lik.eval()
-    # the denotation on the model's own K, m, S
-    with torch.no_grad(), settings.lazily_evaluate_kernels(True):
-        Xe = X.expand(*(tb or mb), n, d) if tb else X
-        Z = torch.cat([Xe, Xs], dim=-2)
-        prior = model.forward(Z)
-        Kj = prior.covariance_matrix
-        mj = prior.mean.reshape(*Kj.shape[:-2], -1)
-        T = 2 if tasks else 1
-        ntr = n * T
-        if fam["lik"] == "fixed":
-            Str = torch.diag_embed(noise_tr.expand(*Kj.shape[:-2], n))
-            Ste = torch.diag_embed(noise_te)
-        else:
-            ptr = model.forward(Xe)
-            Str = lik(ptr).covariance_matrix - ptr.covariance_matrix
-            pte = model.forward(Xs)
-            Ste = lik(pte).covariance_matrix - pte.covariance_matrix
-        A = Kj[..., :ntr, :ntr] + Str
-        cond = float(torch.linalg.cond(A).max())
-        yy = y.expand(*Kj.shape[:-2], *y.shape[len(mb):]).reshape(*Kj.shape[:-2], -1)
-        Lc = torch.linalg.cholesky(A)
-        Ksx = Kj[..., ntr:, :ntr]
-        sol = torch.cholesky_solve((yy - mj[..., :ntr]).unsqueeze(-1), Lc).squeeze(-1)
-        wm = mj[..., ntr:] + (Ksx @ sol.unsqueeze(-1)).squeeze(-1)
-        wc = Kj[..., ntr:, ntr:] - Ksx @ torch.cholesky_solve(Ksx.transpose(-1, -2), Lc)
-        wmc = wc + Ste
-        floor = (0.0, 0.0)
-        if not cell["chol"] and ntr > 10:
-            # more unknowns than CG's minimum of 10 iterations: CG stops at its own floor (relative residual 1e-5 / sqrt(lambda_min), the guard of
-            # its divisions), propagated to the outputs exactly as in c01_knobs
-            rho = c01_knobs.CG_FLOOR / math.sqrt(float(torch.linalg.eigvalsh(A).min()))
-            W = torch.cholesky_solve(Ksx.transpose(-1, -2), Lc)
-            wn, kn, bn = W.norm(dim=-2), Ksx.norm(dim=-1), (yy - mj[..., :ntr]).norm(dim=-1)
-            ncols = max(1, wn.numel())
-            floor = (float((c01_knobs.SAFETY * rho * bn.unsqueeze(-1) * wn).max()),
-                     0.0 if cell["fpv"] else float((c01_knobs.SAFETY * ncols * rho * wn.unsqueeze(-1) * kn.unsqueeze(-2)).max()))
-    if cond > 1e4:
+    T = 2 if tasks else 1
+    ntr = n * T
+
+    gaps = []
+
+    def oracle(Xs, noise_te):
+        """the denotation on the model's own K, m, S (kernels with active_dims / call-time keywords: K written out by hand on the declared columns)"""
+        with torch.no_grad(), settings.lazily_evaluate_kernels(True):
+            Xe = X.expand(*(tb or mb), n, d) if tb else X
+            Z = torch.cat([Xe, Xs], dim=-2)
+            prior = model.forward(Z)
+            Kj = c01_hist.ref_kernel(torch, tree, model.covar_module, Z, Z, warp) if tree else prior.covariance_matrix
+            mj = prior.mean.reshape(*Kj.shape[:-2], -1)
+            if fam["lik"] == "fixed":
+                Str = torch.diag_embed(noise_tr.expand(*Kj.shape[:-2], n))
+                Ste = torch.diag_embed(noise_te)
+            else:
+                ptr = model.forward(Xe)
+                Str = lik(ptr).covariance_matrix - ptr.covariance_matrix
+                pte = model.forward(Xs)
+                Ste = lik(pte).covariance_matrix - pte.covariance_matrix
+            A = Kj[..., :ntr, :ntr] + Str
+            cond = float(torch.linalg.cond(A).max())
+            ev = torch.linalg.eigvalsh(A)
+            gaps.append(float(((ev[..., 1:] - ev[..., :-1]) / ev[..., -1:]).min()) if ntr > 1 else 1.0)
+            yy = y.expand(*Kj.shape[:-2], *y.shape[len(mb):]).reshape(*Kj.shape[:-2], -1)
+            Lc = torch.linalg.cholesky(A)
+            Ksx = Kj[..., ntr:, :ntr]
+            sol = torch.cholesky_solve((yy - mj[..., :ntr]).unsqueeze(-1), Lc).squeeze(-1)
+            wm = mj[..., ntr:] + (Ksx @ sol.unsqueeze(-1)).squeeze(-1)
+            wc = Kj[..., ntr:, ntr:] - Ksx @ torch.cholesky_solve(Ksx.transpose(-1, -2), Lc)
+            wmc = wc + Ste
+            floor = (0.0, 0.0)
+            if not cell["chol"] and ntr > 10:
+                # more unknowns than CG's minimum of 10 iterations: CG stops at its own floor (relative residual 1e-5 / sqrt(lambda_min), the guard of
+                # its divisions), propagated to the outputs exactly as in c01_knobs
+                rho = c01_knobs.CG_FLOOR / math.sqrt(float(torch.linalg.eigvalsh(A).min()))
+                W = torch.cholesky_solve(Ksx.transpose(-1, -2), Lc)
+                wn, kn, bn = W.norm(dim=-2), Ksx.norm(dim=-1), (yy - mj[..., :ntr]).norm(dim=-1)
+                ncols = max(1, wn.numel())
+                floor = (float((c01_knobs.SAFETY * rho * bn.unsqueeze(-1) * wn).max()),
+                         0.0 if cell["fpv"] else float((c01_knobs.SAFETY * ncols * rho * wn.unsqueeze(-1) * kn.unsqueeze(-2)).max()))
+        return (wm, wc, wmc), cond, floor
+    # TWO predictions on the same model, at different test inputs (the second with one more test point): the conditional must hold at both
+    ns2 = ns + 1
+    Xs2 = torch.rand(*(tb or mb), ns2, d, generator=g, dtype=D) * 2 - 1
+    noise_te2 = (0.1 + 0.2 * torch.rand(*(tb or mb), ns2, generator=g, dtype=D)) if fam["lik"] == "fixed" else None
+    want1, cond, floor1 = oracle(Xs, noise_te)
+    want2, _, floor2 = oracle(Xs2, noise_te2)
+    lanczos_root = cell["fpv"] and not cell["cholroot"] and not cell["skipvar"]
+    if cond > 1e4 or (lanczos_root and min(gaps) < 1e-3):
+        # ill-conditioned, or (Lanczos root) two eigenvalues of Kxx+S closer than 1e-3 of the largest: the Krylov space is numerically smaller
+        # than n and lanczos_tridiag stops early for every probe (same reason as for the integer L1 instances)
         res.update(nontrivial=False, n=0)
         return res
     sig = "C01/L2/%s/%s/%s" % (fam["kernel"], fam["lik"], PathSig(cell))
-    lk = {"noise": noise_te} if fam["lik"] == "fixed" else {}
-    ok, got = core.guarded(lambda: predict(torch, settings, model, lik, Xs, cell, (n + ns) * T, lk))
-    if not ok:
-        res.update(ok=False, sig=sig + "/raises", detail="%s: %s" % (desc, got))
+
+    def attempt():
+        for which, xs_k, nz_k, want, floor in (("", Xs, noise_te, want1, floor1), ("/second-prediction", Xs2, noise_te2, want2, floor2)):
+            lk = {"noise": nz_k} if fam["lik"] == "fixed" else {}
+            ok, got = core.guarded(lambda: predict(torch, settings, model, lik, xs_k, cell, (n + xs_k.shape[-2]) * T, lk))
+            if not ok:
+                res.update(ok=False, sig=sig + which + "/raises", detail="%s%s: %s" % (desc, which and " (second prediction, at other test inputs)", got))
+                return
+            compare(torch, res, desc + (which and " (second prediction, at other test inputs)"), cell, got, want, sig + which, floor)
+            if not res["ok"]:
+                return
+    attempt()
+    if not res["ok"] and lanczos_root and not res["sig"].endswith(("/raises", "/mean")):
+        # a Lanczos root is exact at full rank for almost every random probe vector only (heavy tail, see c01_knobs): the cell fails when
+        # PROBE_DRAWS independent probes all miss the tolerance - a wrong block or a truncated rank misses it for every probe
+        first = dict(sig=res["sig"], detail=res["detail"])
+        for extra in range(1, c01_knobs.PROBE_DRAWS):
+            torch.manual_seed(seed * 31 + extra)
+            model.train()
+            lik.train()
+            model.eval()
+            lik.eval()                 # no caches from the earlier probe
+            res.update(ok=True)
+            res.pop("sig", None)
+            res.pop("detail", None)
+            attempt()
+            if res["ok"]:
+                res["probe_redrawn"] = extra
+                break
+        if not res["ok"]:
+            res.update(first)
+    if not res["ok"]:
         return res
-    compare(torch, res, desc, cell, got, (wm, wc, wmc), sig, floor)
     if res["ok"] and "sample" not in res and seed % 50 == 0:
         res["sample"] = dict(case=desc)
     return res
@@ -306,9 +383,17 @@ def run(ck):
     thorough = ck.tier == "thorough"
     core.setup_torch()
     rnd = random.Random(ck.seed)
-    ck.rule = ("cells = every combination of the 7 prediction-relevant settings (128 paths, ExactPosterior.tla); L1: TLC's exact rational posteriors of "
-               "linear-kernel instances through a real ExactGP on sampled cells; L2: seeded models (kernel x mean x likelihood x shape class) on every cell "
-               "against the Gaussian conditional computed densely from the model's own K, m, S; "
+    ck.rule = ("cells = every combination of the 7 prediction-relevant settings (128 paths, ExactPosterior.tla) x one of 8 global switches that select no "
+               "algorithm (debug off, memory_efficient, trace_mode, fast_pred_samples, verbose_linalg, deterministic_probes, skip_logdet_forward, use_toeplitz off) or none; "
+               "every L1/L2 cell makes TWO predictions on the same model; L1: TLC's exact rational posteriors of "
+               "linear-kernel instances through a real ExactGP on sampled cells; L2: seeded models (kernel x mean x likelihood x shape class; kernels include active_dims on "
+               "3-column inputs - plain, inside Scale, ARD with non-ascending dims, parts of sums / products with different dims - and a kernel consuming a call-time keyword "
+               "passed by the model's forward) on every cell against the Gaussian conditional computed densely from the model's own K, m, S (active_dims / keyword kernels: K "
+               "written out by hand on the declared columns); "
+               "L4: every history of the history machine (ExactPosterior.tla part history: predictions under a switch or none, model.train(); model.eval() in between; "
+               "model class = active_dims nowhere / top-level / inner x keywords none / by forward / by the caller x tracked kernel in the model or in the noise model of a "
+               "HeteroskedasticNoise likelihood x lazy-dense / lazy-slices / evaluated), closed by a prediction under default settings, EVERY prediction against the "
+               "conditional written out by hand; the machine's invariant OnePrior is checked by TLC and two broken variants must be rejected; "
                "L3: the accuracy-knob lattice (part knobs: path selectors x {eval_cg_tolerance, cg_tolerance, max_cg_iterations, preconditioner size, "
                "max_root_decomposition_size, probe count, num_trace_samples, max_lanczos_quadrature_iterations} with at most two knobs off their default, every "
                "other setting UNTOUCHED) on models with n = 48..60 / 120..132 / 804..812 training points (short lengthscale, cond 50..3000); the comparison "
@@ -318,10 +403,16 @@ def run(ck):
                "Lanczos root at rank >= n (n <= 800) -> 2 * tridiagonal_jitter * (tr A / n) |A^-1 k_i| |A^-1 k_j| + 1e-4 relative + 1e-6, failing only if 4 "
                "independent probe vectors all miss it; "
                "max_cg_iterations below n, Lanczos rank below n, Lanczos above n = 800 -> nothing promised, not compared; non-trivial = a non-default path")
-    ck.assumptions = ["L1/L2: iterative paths are run as exact algorithms (CG tolerance 1e-12, Lanczos at full rank) and compared at 2e-5; Cholesky paths at 1e-7",
+    ck.assumptions = ["L4: mean, kernel and noise of the hand-written conditional read the hyperparameters (lengthscale, outputscale, variance, noise, constant) from "
+                      "the modules' properties; the HeteroskedasticNoise variance at x is softplus(posterior mean of the noise GP at x) + 1e-4 (its default constraint), "
+                      "the noise GP's posterior mean itself by hand",
+                      "L4/L2: call-time keywords reach a mean only through the model's forward (gpytorch.means.Mean.__call__ accepts none): the keyword-consuming mean of L4 is a "
+                      "plain gpytorch.Module",
+                      "L1/L2: iterative paths are run as exact algorithms (CG tolerance 1e-12, Lanczos at full rank) and compared at 2e-5; Cholesky paths at 1e-7",
                       "L2 systems with more than 10 unknowns (multitask, 12) on the CG path additionally get CG's own floor (relative residual "
                       "1e-5/sqrt(lambda_min), propagated as in L3): CG cannot finish them within its minimum of 10 iterations",
-                      "instances with cond(Kxx+S) > 1e4 are skipped (counted)", "float64; L1/L2 n <= 8 training points, L3 n >= 48",
+                      "instances with cond(Kxx+S) > 1e4 are skipped (counted); so are Lanczos-root cells of L2 instances with two eigenvalues of Kxx+S closer than "
+                      "1e-3 of the largest (clustered spectrum: Lanczos is not an exact algorithm there)", "float64; L1/L2 n <= 8 training points, L3 n >= 48",
                       "Lanczos-root cells are replayed on generic (seeded float) instances only: for the integer L1 instances repeated eigenvalues make "
                       "the Krylov space smaller than n, where Lanczos is not an exact algorithm",
                       "L3: at the default eval_cg_tolerance (1e-2) CG is legitimately inexact; such cells are compared only at the (loose) bound their own "
@@ -330,6 +421,8 @@ def run(ck):
                       "stops early when its re-orthogonalisation fails (about 1 probe in 2000 at n = 48..60; 2 in 8 on one fixed-noise model with n = 804: rank 803, "
                       "covariance off by 1e-3); the spec therefore promises "
                       "nothing for the Lanczos covariance above n = 800 and a smaller cell fails only when 4 independent probes all miss the tolerance",
+                      "L2: a Lanczos-root cell (fast_pred_var, root by Lanczos at full rank) likewise fails only when 4 independent probe vectors all miss the "
+                      "tolerance (one probe in several hundred is off by 3e-5..4e-4 on a 5-point model; a wrong block or a truncated rank is off for every probe)",
                       "L3: max_cg_iterations(25) together with max_lanczos_quadrature_iterations(50) is rejected by linear_cg by design and is not a cell"]
     wd = os.path.join(tlc.BUILD, PID)
     insts = gen_instances(rnd, 400 if thorough else 120, 300 if thorough else 80)
@@ -340,18 +433,49 @@ def run(ck):
     jobs.append(((mod, cfg), dict(name=PID + "/algebra", dump=True, check=False, workers=min(8, core.NPROC), timeout=1500)))
     mod, cfg = write_mc(wd, "knobs", "knobs", maxoff=2)
     jobs.append(((mod, cfg), dict(name=PID + "/knobs", dump=True, check=False, workers=2)))
+    # histories of predictions: every run below 2e4 states (thorough: length 3, the model lattice split over three runs)
+    hl = 3 if thorough else 2
+    hparts = [(("none",), ("covar",)), (("forward",), ("covar",)), (("call",), ("covar",)), (("none",), ("noise",))] if thorough else [(("none", "forward", "call"), ("covar", "noise"))]
+    for k, (kws, sites) in enumerate(hparts):
+        mod, cfg = write_mc(wd, "history%d" % k, "history", histlen=hl, kw=kws, sites=sites)
+        jobs.append(((mod, cfg), dict(name=PID + "/history%d" % k, dump=True, check=False, workers=2)))
+    for name, consts in BROKEN.items():
+        mod, cfg = write_mc(wd, "broken_" + name.replace("-", "_"), "history", histlen=2, invariants=("HistoryOK",), **consts)
+        jobs.append(((mod, cfg), dict(name=PID + "/broken_" + name, check=False, workers=1, coverage=False)))
     rs = tlc.run_many(jobs, parallel=3)
-    for lab, r in zip(("settings lattice", "rational path formulas", "accuracy-knob lattice"), rs):
+    nh = len(hparts)
+    labels = ["settings lattice", "rational path formulas", "accuracy-knob lattice"] + ["prediction histories %d" % k for k in range(nh)]
+    for lab, r in zip(labels, rs):
         ck.add_tlc(r, "ExactPosterior " + lab)
         if r.violation:
             ck.model_drift("ExactPosterior.tla %s violates %s" % (lab, r.violation["name"]))
         elif r.rc != 0:
             raise tlc.TLCError("TLC failed on ExactPosterior %s:\n%s" % (lab, r.stdout[-1500:]))
-    cells = [dict(st["c"]) for st in rs[0].states()]
-    if len(cells) != 128:
-        ck.vacuous("settings lattice has %d cells instead of 128" % len(cells))
+    rejected = {}
+    for name, r in zip(BROKEN, rs[3 + nh:]):
+        ck.add_tlc(r, "ExactPosterior broken history machine " + name)
+        rejected[name] = (r.violation or {}).get("name")
+        if not r.violation:
+            if r.rc != 0:
+                raise tlc.TLCError("TLC failed on the broken history machine %s:\n%s" % (name, r.stdout[-1500:]))
+            ck.vacuous("the broken history machine %s is accepted by TLC (OnePrior is vacuous)" % name)
+    ck.extra["broken_history_machines_rejected"] = rejected
+    allcells = [dict(st["c"]) for st in rs[0].states()]
+    nsw = len(c01_hist.SWITCHES) + 1
+    if len(allcells) != 128 * nsw or {cl["sw"] for cl in allcells} != set(c01_hist.SWITCHES) | {"none"}:
+        ck.vacuous("settings lattice has %d cells instead of %d" % (len(allcells), 128 * nsw))
+    bysw = {}
+    for cl in allcells:
+        bysw[(tuple(bool(cl[k]) for k in FLAGS), cl["sw"])] = cl
+    cells = sorted((cl for cl in allcells if cl["sw"] == "none"), key=lambda cl: tuple(bool(cl[k]) for k in FLAGS))
+    # the switch of a replayed cell: every other draw the default, otherwise rotating through the switches
+    rota = [w for s_ in c01_hist.SWITCHES for w in ("none", s_)]
+
+    def with_switch(cell, k):
+        return bysw[(tuple(bool(cell[f]) for f in FLAGS), rota[k % len(rota)])]
     lin = [(dict(st["c"]), st["out"]) for st in rs[1].states() if st["c"]["kind"] == "lin"]
     cases = []
+    draw = 0
     for k, (inst, out) in enumerate(lin):
         inst = {kk: ([list(r) for r in v] if kk in ("X", "Xs") else (list(v) if kk == "y" else v)) for kk, v in inst.items()}
         exp = dict(mean=[list(v) for v in out["mean"]], cov=[[list(v) for v in row] for row in out["cov"]], marg=[[list(v) for v in row] for row in out["marg"]])
@@ -361,21 +485,31 @@ def run(ck):
                 # integer instances have repeated eigenvalues: the Krylov space of a Lanczos root is then smaller than n and the
                 # root is not exact even "at full rank"; these cells are exercised by the generic (seeded float) L2 instances
                 continue
-            cases.append(dict(level="L1", inst=inst, cell=cell, exp=exp))
+            draw += 1
+            cases.append(dict(level="L1", inst=inst, cell=with_switch(cell, draw), exp=exp))
     fams = [dict(kernel=k, mean=m, lik=l) for k, m, l in [("rbf_ard", "constant", "gaussian"), ("matern", "linear", "gaussian"), ("rq", "constant", "fixed"),
-                                                        ("sum", "constant", "gaussian"), ("prod", "linear", "fixed"), ("mtask", "constant", "mtask")]]
+                                                        ("sum", "constant", "gaussian"), ("prod", "linear", "fixed"), ("mtask", "constant", "mtask"),
+                                                        # kernels with active_dims on 3-column inputs: on the top-level module (plain, inside Scale, ARD with
+                                                        # non-ascending dims), on the parts of sums / products (different dims per part); kernels consuming a
+                                                        # call-time keyword passed by the model's forward (K by hand on the declared columns, c01_hist.ref_kernel)
+                                                        ("tree:rbf@02", "constant", "gaussian"), ("tree:scale(matern@12)", "linear", "fixed"),
+                                                        ("tree:scale(rbf-ard@20)", "constant", "gaussian"), ("tree:scale(rbf@0)+matern@12", "constant", "fixed"),
+                                                        ("tree:rbf@01*linear@2", "linear", "gaussian"), ("tree:scale(rbf@02+linear@1)", "constant", "gaussian"),
+                                                        ("tree:scale(warp)", "constant", "gaussian"), ("tree:warp@0+matern@12", "linear", "fixed")]]
     shapes = [dict(n=6, d=2), dict(n=1, d=1), dict(n=5, d=3, model_batch=[2]), dict(n=5, d=1, test_batch=[2]),
               dict(n=4, d=1, ns=4)]      # as many test as training points (size-based shortcuts, e.g. of fixed-noise models)
     seeds = range(3 if thorough else 1)
-    for cell in cells:
+    for ci, cell in enumerate(cells):
         for fi, fam in enumerate(fams):
             for si, shape in enumerate(shapes):
                 if fam["lik"] == "mtask" and (shape.get("model_batch") or shape["n"] == 1):
                     continue
-                if not thorough and (fi + si + sum(1 for v in cell.values() if v)) % 3 != 0:
+                if not thorough and (fi + si + sum(1 for f in FLAGS if cell[f])) % 3 != 0:
                     continue
                 for s in seeds:
-                    cases.append(dict(level="L2", fam=fam, shape=shape, cell=cell, seed=ck.seed * 1000 + fi * 100 + si * 10 + s))
+                    cases.append(dict(level="L2", fam=fam, shape=shape, cell=with_switch(cell, ci + 5 * fi + 3 * si + 7 * s), seed=ck.seed * 1000 + fi * 100 + si * 10 + s))
+    l4 = history_cases(ck, rs[3:3 + nh], hl, thorough)
+    cases += l4
     l3 = knob_cases(ck, rs[2], rnd, thorough)
     cases += l3
     rnd.shuffle(cases)
@@ -383,7 +517,16 @@ def run(ck):
     results = core.pmap(_worker, items, chunksize=1)
     ck.absorb(results)
     l1 = sum(1 for c in cases if c["level"] == "L1")
-    ck.section("replay", cells=len(cells), L1_cases=l1, L2_cases=len(cases) - l1 - len(l3), L3_cases=len(l3), rational_instances=len(insts),
+    sws = {}
+    for c in cases:
+        if c["level"] in ("L1", "L2"):
+            sws[c["cell"]["sw"]] = sws.get(c["cell"]["sw"], 0) + 1
+    for w in rota:
+        if not sws.get(w):
+            ck.vacuous("no replayed lattice cell runs under switch %s" % w)
+    ck.section("replay", cells=len(allcells), L1_cases=l1, L2_cases=len(cases) - l1 - len(l3) - len(l4), L3_cases=len(l3), L4_histories=len(l4), rational_instances=len(insts),
+               lattice_cases_per_switch=sws, predictions_per_L1_L2_case=2,
+               L4_predictions=sum(r.get("npred", 0) for r in results),
                skipped_ill_conditioned=sum(1 for r in results if r.get("n") == 0 and not r.get("nopromise")))
     worst = {}
     for r in results:
@@ -391,6 +534,43 @@ def run(ck):
             kk = "%s/%s" % (k, "".join(map(str, r["case"]["exp"][k])))
             worst[kk] = max(worst.get(kk, 0.0), round(v, 3))
     ck.section("knobs", worst_error_over_tolerance=worst, lanczos_probe_redrawn=sum(1 for r in results if r.get("probe_redrawn")))
+
+
+def history_cases(ck, runs, hl, thorough):
+    """the maximal histories of the history machine, each on a real model of its abstract class: the kernel tree rotates through the trees of the
+    class (ad, keyword), the likelihood through gaussian / fixed noise (site covar)"""
+    hists = []
+    for r in runs:
+        for st in r.states():
+            cc = st["c"]
+            if len(cc["hist"]) == hl:
+                hists.append((dict(cc["m"]), str(cc["p"]), [str(a) for a in cc["hist"]], len(st["out"])))
+    hists.sort(key=lambda h: (sorted(h[0].items()), h[1], h[2]))
+    seen = {a for h in hists for a in h[2]}
+    for a in ("refresh", "set-targets", "set-data", "none") + c01_hist.SWITCHES:
+        if a not in seen:
+            ck.vacuous("no generated history takes step %s" % a)
+    for site in ("covar", "noise"):
+        for ad in ("none", "top", "inner"):
+            if not any(h[0]["site"] == site and h[0]["ad"] == ad for h in hists):
+                ck.vacuous("no generated history for a model with active_dims=%s, site=%s" % (ad, site))
+    for kw in ("forward", "call"):
+        if not any(h[0]["kw"] == kw for h in hists):
+            ck.vacuous("no generated history for a model passing keywords by %s" % kw)
+    order = ("none",) + c01_hist.SWITCHES + ("refresh", "set-targets", "set-data")
+    out, k = [], 0
+    per = {}
+    for m, p, hist, nobs in hists:
+        k += 1
+        init = (m["ad"], m["kw"], m["site"], p)
+        ik = per.setdefault(init, len(per))
+        if (sum(order.index(a) for a in hist) + ik) % (2 if thorough else 3) != 0:
+            continue          # quick tier: a third of the length-2 histories (every (model class, path, first step) with 3-4 continuations); thorough: half of the length-3 ones
+        trees = c01_hist.BY_CLASS[(m["ad"], m["kw"] != "none" and m["site"] == "covar")]
+        out.append(dict(level="L4", m=m, p=p, hist=hist, tree=trees[k % len(trees)], lik=("gaussian", "fixed")[(k // len(trees)) % 2], seed=(ck.seed * 131 + k) % 100000,
+                        tracked_predictions=nobs, close_at_train=(k % 4 == 0)))
+    ck.section("histories", generated=len(hists), replayed=len(out), length=hl, model_classes=len(per))
+    return out
 
 
 def knob_cases(ck, r, rnd, thorough):
